@@ -955,3 +955,74 @@ def rule_DZ1(ctx, files=None):
                          'tests it: x/0 or 0/0' % (f.src_text(i)[:60].replace('\n', ' '), bad, why))
     res.analysed.update({'quotients_by_vanishing_members': nsite})
     return res, nsite
+
+
+# ------------------------------------------------------------------ DEAD1: an arm of an else-if chain that earlier arms exclude
+def rule_DEAD1(ctx, files=None):
+    from ..flow import Flow
+    res = RuleResult('DEAD1', 'every arm of an else-if chain can be taken: an arm whose condition is built only from tests that '
+                              'earlier conditions of the chain already made, and which those conditions (all false on the way '
+                              'there) contradict, is dead code the author believed live (`if (a || b) .. else if (a) .. else '
+                              'if (b) ..`)')
+    narm = 0
+    for f in sorted(ctx.lib_fns(), key=lambda x: (x.file, x.line)):
+        if not _in(f, files) or f.d.get('body', -1) < 0 or not f.cfg:
+            continue
+        chains = [(i, n) for i, n in f.all_nodes() if n['k'] == 'IfStmt' and n.get('else', -1) is not None
+                  and n.get('else', -1) >= 0 and f.nodes[n['else']]['k'] == 'IfStmt']
+        if not chains:
+            continue
+        inner = {n['else'] for i, n in chains}
+        blocks = {b['id']: b for b in f.cfg['blocks']}
+        entry = max(blocks)
+        reach, st = {entry}, [entry]
+        while st:
+            b = st.pop()
+            for s_ in blocks[b]['succ']:
+                if s_ and s_.get('reach') and s_['b'] not in reach:
+                    reach.add(s_['b'])
+                    st.append(s_['b'])
+        fl = Flow(f)
+
+        def atoms(cond):
+            env = fl.env_at(cond)
+            out = set()
+            for d in fl.cond2(cond, env if env is not None else {}):
+                for alt in (d or ()):
+                    for a, pol in alt:
+                        out.add(a)
+            return out
+
+        def first_stmt(a):
+            while a is not None and a >= 0 and f.nodes[a]['k'] == 'CompoundStmt' and f.nodes[a]['ch']:
+                a = f.nodes[a]['ch'][0]
+            return a
+        for i, n in chains:
+            if i in inner:
+                continue            # start at the head of each chain
+            prev = atoms(n['cond'])
+            j = n['else']
+            while j is not None and j >= 0:
+                jn = f.nodes[j]
+                if jn['k'] == 'IfStmt':
+                    here = atoms(jn['cond'])
+                    arm, nxt = jn.get('then', -1), jn.get('else', -1)
+                else:
+                    here, arm, nxt = set(), j, -1
+                tgt = first_stmt(arm)
+                if tgt is not None and tgt >= 0 and here <= prev and (here or jn['k'] != 'IfStmt') and prev:
+                    loc = fl.locate(tgt)
+                    if loc is not None and loc[0] in reach:
+                        narm += 1
+                        alts = fl.facts_in.get(loc[0])
+                        dead = alts is None or len(alts) == 0
+                        res.ob(not dead, {'fn': f.q, 'arm': f.loc(tgt)} if (dead or narm % 10 == 1) else None)
+                        if dead:
+                            res.fail(f.q, 'arm@%s' % f.src_text(jn['cond'] if jn['k'] == 'IfStmt' else tgt)[:40].strip(),
+                                     f.loc(tgt), 'this arm of the else-if chain starting at %s cannot be taken: the earlier '
+                                     'conditions of the chain, all false here, contradict %s'
+                                     % (f.loc(i), ('`%s`' % f.src_text(jn['cond'])[:60]) if jn['k'] == 'IfStmt' else 'every remaining case'))
+                prev |= here
+                j = nxt if jn['k'] == 'IfStmt' else -1
+    res.analysed.update({'else_if_arms_judged': narm})
+    return res, narm
